@@ -41,6 +41,9 @@ type Report struct {
 	RevBefore   int64    `json:"rev_before"`
 	RevAfter    int64    `json:"rev_after"`
 	SizeAfter   int64    `json:"size_after"`
+	After       string   `json:"after,omitempty"`     // what the victim did after the operation: "retry" | "close"
+	AfterErr    string   `json:"after_err,omitempty"` // error of that step ("" = it succeeded)
+	AfterDone   bool     `json:"after_done,omitempty"`
 	SetupErr    string   `json:"setup_err,omitempty"` // harness: the steps before the marker failed
 	Log         string   `json:"log,omitempty"`
 }
@@ -246,6 +249,20 @@ func VictimMain(args []string) {
 	if err != nil {
 		rep.Err = err.Error()
 		rep.Failed = true
+	}
+	// what a caller does next with a process that is still alive (outside the counted window, no fault injected):
+	// "retry": the operation that reported failure is issued again; "close": the replica is shut down in an orderly way
+	switch after := os.Getenv("VERIF_EC_AFTER"); {
+	case after == "retry" && rep.Failed && srv.Replica() != nil:
+		rep.After, rep.AfterDone = after, true
+		if e := run(); e != nil {
+			rep.AfterErr = e.Error()
+		}
+	case after == "close" && srv.Replica() != nil:
+		rep.After, rep.AfterDone = after, true
+		if e := srv.Close(); e != nil {
+			rep.AfterErr = e.Error()
+		}
 	}
 	rep.ChainAfter = chainOf(srv)
 	if srv.Replica() != nil {
